@@ -210,8 +210,8 @@ def diff(got: Any, exp: Any) -> list[tuple[str, str]]:
 
 
 class Session:
-    def __init__(self, sim: Sim, apiv: tuple[int, int], framing: str = "plain") -> None:
-        cfg = DeviceConfig(api_major=apiv[0], api_minor=apiv[1])
+    def __init__(self, sim: Sim, apiv: tuple[int, int], framing: str = "plain", hello_name: str | None = None) -> None:
+        cfg = DeviceConfig(api_major=apiv[0], api_minor=apiv[1], hello_name=hello_name)
         if framing == "noise":
             cfg.noise_psk = PSK
         self.dev = sim.device(cfg)
@@ -228,12 +228,12 @@ class Session:
         return self.dev.conn.received[n0:]
 
 
-def run_commands(ctx: Ctx, apiv: tuple[int, int], methods: list[str], framing: str, stride: int = 1) -> None:
+def run_commands(ctx: Ctx, apiv: tuple[int, int], methods: list[str], framing: str, stride: int = 1, hello_name: str | None = None) -> None:
     res = ctx.res
     vals = values()
     m = M()
     with Sim() as sim:
-        s = Session(sim, apiv, framing)
+        s = Session(sim, apiv, framing, hello_name)
         idx = 0
         for method in methods:
             if method in FIXED:
@@ -630,6 +630,9 @@ def shard(ctx: Ctx) -> None:
         run_commands(ctx, apiv, ["cover_command", "valve_command", "lock_command"], "plain")
     for apiv in ((1, 4), (1, 5)):
         run_commands(ctx, apiv, ["climate_command", "fan_command"], "plain")
+    # old firmware also leaves the name out of its hello: the negotiated version is the one it announced all the same
+    for apiv in ((1, 0), (1, 4), (1, 2)):
+        run_commands(ctx, apiv, ["cover_command", "climate_command", "valve_command"], "plain", hello_name="")
     run_commands(ctx, (1, 10), ["fan_command", "siren_command", "media_player_command", "cover_command", "lock_command", "switch_command"], "noise")
     run_same_key_sequences(ctx, (1, 10), list(REQUEST), "plain")
     for j, (framing, drain, first) in enumerate((("plain", ("rate", 400), ("partial", 1000)), ("noise", ("rate", 300), ("partial", 1500)),
